@@ -123,10 +123,14 @@ PROPERTIES = {
     "C12": {
         "decided_by": "Proved: node_attractor_sets returns the attractor sets of the node's seeds in the same order and caches them; "
                       "symbolic_attractor_test returns exactly the forward closure of the pivot when it does not reach the avoid set (= the attractor, L8); "
-                      "expanded_attractor_sets() maps exactly the expanded nodes that own attractors to their cached sets.",
+                      "expanded_attractor_sets() maps exactly the expanded nodes that own attractors to their cached sets; compute_attractors_symbolic "
+                      "(second contract `#structure`): every seed is a tested candidate completed with the node's values, its set is the converted "
+                      "forward closure of exactly that candidate, seeds keep the candidates' order, the single-candidate shortcut is only taken for a "
+                      "childless node when only seeds are wanted.",
         "bounded": "attractor sets vs brute-force terminal SCCs; symbolic fallback vs default pipeline",
         "excluded": [],
-        "trusted": ["compute_attractors_symbolic, symbolic_attractor_fallback, sort_variable_list (assumed contracts)", "AEON vertex-set algebra"],
+        "trusted": ["the MEANING of compute_attractors_symbolic's result (system of representatives; call-site contract) and symbolic_attractor_fallback, "
+                    "sort_variable_list (assumed contracts)", "AEON vertex-set algebra and set conversions"],
     },
     "C13": {
         "decided_by": "Proved (termination variants discharged): symbolic_attractor_test main loop (lexicographic variant over set cardinalities), "
